@@ -330,3 +330,58 @@ Proof.
   replace (N.to_nat (lenN recs)) with (length recs) by (unfold lenN; lia). unfold R.
   apply records_roundtrip; [exact F|]. intros s I. split; [apply Hget; exact I|apply Hoff; exact I].
 Qed.
+
+(* ---- the key table as it is built: insertion sort of (key, index) pairs ------------------- *)
+Inductive ksorted : list (N * N) -> Prop :=
+| ks_nil : ksorted []
+| ks_cons x r : Forall (fun y => fst x <= fst y) r -> ksorted r -> ksorted (x :: r).
+
+Lemma insert_key_in e t x : In x (insert_key e t) <-> x = e \/ In x t.
+Proof.
+  induction t as [|y r IH]; cbn [insert_key In]; [intuition|].
+  destruct (fst e <=? fst y); cbn [In]; [intuition | rewrite IH; intuition].
+Qed.
+
+Lemma insert_key_sorted e t : ksorted t -> ksorted (insert_key e t).
+Proof.
+  induction 1 as [|y r Hy Hr IH]; cbn [insert_key]; [constructor; constructor|].
+  destruct (fst e <=? fst y) eqn:E.
+  - apply N.leb_le in E. constructor; [|constructor; assumption].
+    constructor; [exact E|]. eapply Forall_impl; [|exact Hy]. cbn beta. intros z Hz. lia.
+  - apply N.leb_gt in E. constructor; [|exact IH].
+    apply Forall_forall. intros z Hz. apply insert_key_in in Hz. destruct Hz as [-> | Hz]; [lia|].
+    rewrite Forall_forall in Hy. apply Hy, Hz.
+Qed.
+
+Lemma sort_keys_in t x : In x (sort_keys t) <-> In x t.
+Proof.
+  unfold sort_keys. induction t as [|y r IH]; cbn [fold_right In]; [reflexivity|].
+  rewrite insert_key_in, IH. intuition.
+Qed.
+
+Lemma sort_keys_ksorted t : ksorted (sort_keys t).
+Proof. unfold sort_keys. induction t as [|y r IH]; cbn [fold_right]; [constructor | apply insert_key_sorted, IH]. Qed.
+
+Lemma ksorted_sorted_keys t : ksorted t -> sorted_keys t.
+Proof.
+  induction 1 as [|x r Hx Hr IH]; intros a b ka ia kb ib Hab Ha Hb; [destruct a; discriminate|].
+  destruct b as [|b]; [lia|]. cbn [nth_error] in Hb.
+  destruct a as [|a]; cbn [nth_error] in Ha.
+  - injection Ha as ->. rewrite Forall_forall in Hx. apply nth_error_In in Hb. apply (Hx _ Hb).
+  - apply (IH a b ka ia kb ib); [lia | exact Ha | exact Hb].
+Qed.
+
+Theorem sort_keys_sorted t : sorted_keys (sort_keys t).
+Proof. apply ksorted_sorted_keys, sort_keys_ksorted. Qed.
+
+(* the table the reader builds: every key of the file is found, and what is found is an entry of the file *)
+Theorem built_table_lookup t key :
+  (forall i, In (key, i) t -> exists j, lookup_sorted (sort_keys t) key = Some j /\ In (key, j) t) /\
+  (forall j, lookup_sorted (sort_keys t) key = Some j -> In (key, j) t).
+Proof.
+  split.
+  - intros i Hi. destruct (lookup_sorted_complete (sort_keys t) key i (sort_keys_sorted t)) as (j & Hj & Hin).
+    + apply sort_keys_in, Hi.
+    + exists j. split; [exact Hj | apply sort_keys_in, Hin].
+  - intros j Hj. apply sort_keys_in. eapply lookup_sorted_sound. exact Hj.
+Qed.
